@@ -540,6 +540,7 @@ func c06(c *Ctx) {
 		fmt.Fprintf(&b, "Definition ctors : list ctor_row := %s.\n", cListNL(ctorRows))
 		fmt.Fprintf(&b, "Definition cases : list build_case := %s.\n", cListNL(caseRows))
 		fmt.Fprintf(&b, "Definition R_mismatch := Eval vm_compute in List.map (N.add %d) (idx_where (fun c => negb (build_agree regs suffix_sets_tab optab c)) cases).\nPrint R_mismatch.\n", base)
+		fmt.Fprintf(&b, "Definition R_violation := Eval vm_compute in List.map (N.add %d) (idx_where (fun c => negb (build_impl_ok regs suffix_sets_tab optab c)) cases).\nPrint R_violation.\n", base)
 		fmt.Fprintf(&b, "Definition R_bad_ctors := Eval vm_compute in List.map (N.add %d) (bad_ctor_rows suffix_sets_tab optab ctors).\nPrint R_bad_ctors.\n", 1000000+lo)
 		fmt.Fprintf(&b, "Definition R_bad_forms := Eval vm_compute in List.map (N.add 2000000) (bad_form_rows suffix_sets_tab optab).\nPrint R_bad_forms.\n")
 		b.WriteString("Lemma forms_wf : forallb (fun e => forallb (form_wf suffix_sets_tab) (snd e)) optab = true.\nProof. vm_compute. reflexivity. Qed.\nPrint Assumptions forms_wf.\n")
@@ -547,6 +548,7 @@ func c06(c *Ctx) {
 		o.WriteFile(fname, b.String())
 		files = append(files, fname)
 		o.ExpectEmpty(fname, "R_mismatch", "mismatch", "model of x86 build/match over the translated form table vs the real constructor (accept/reject, opcode, suffixes, operands, inputs, outputs, flags, ISA)")
+		o.ExpectEmpty(fname, "R_violation", "violation", "an operand list is accepted although no documented form matches it (or rejected although one does), or the built instruction is not that form's (operands, reads/writes, flags, ISA)")
 		o.ExpectEmpty(fname, "R_bad_forms", "violation", "a form row is not well-formed (explicit operands first, arity, implicit registers, known types/classes): opcode index")
 		o.ExpectEmpty(fname, "R_bad_ctors", "violation", "an entry point does not forward its parameters in order to the same-named constructor/forms, or its documented forms differ from the table's forms (index into the sorted constructor list of this shard)")
 		o.Oblig(strings.TrimSuffix(fname, ".v")+".forms_wf", strings.TrimSuffix(fname, ".v")+".ctors_ok")
